@@ -1,9 +1,10 @@
 import Aiortc.Model.Sctp.Wire
+import Aiortc.Model.Sctp.WireOps
 import Aiortc.Drv.Util
 /-! Line-protocol driver for the SCTP wire model (C08).  Chunk syntax (one token, no spaces):
 `<ClassName>:<flags>:<fields…>`; lists are comma separated (`-` = empty), pairs `a/b`, bytes hex (`-` = empty). -/
 namespace Aiortc.Drv.SctpWire
-open Aiortc Aiortc.Drv Aiortc.Sctp.Wire
+open Aiortc Aiortc.Drv Aiortc.Sctp.Wire Aiortc.Sctp.WireOps
 
 def showParams (ps : List Param) : String := showList (fun p => toString p.1 ++ "/" ++ toHex p.2) ps
 def showPairs (l : List (Nat × Nat)) : String := showList (fun p => toString p.1 ++ "/" ++ toString p.2) l
@@ -94,7 +95,54 @@ def roundtrip (sp dp tag : Nat) (c : Chunk) : String :=
     s!"ok {toHex bs} => {p.tag showParsed} => {re}"
   | o => o.tag toHex
 
+
+/-! ## operation sequences (`sctpwire ops <op> <op> …`, fields of an op separated by `@`)
+
+`new@s@K@v` / `set@s@K@v` (K = `C` chunk, `R` RE-CONFIG parameter, `P` parameter list), `hostile@s@k`,
+`ser@s@sp@dp@tag`, `bytes@s`, `parse@hex@base`, `decparams@hex@s`, `rcparse@t@hex@s`.
+Reply: the observations of the steps joined by ` ; `. -/
+
+def parseVal? (k v : String) : Option Val :=
+  if k = "C" then (parseChunk? v).map .chunk
+  else if k = "R" then (parseRc? v).map .rc
+  else if k = "P" then (parseList? parseParam? v).map .plist
+  else none
+
+def parseOp? (s : String) : Option Op :=
+  match s.splitOn "@" with
+  | ["new", s, k, v] => match parseNat? s, parseVal? k v with
+    | some s, some v => some (.new s v) | _, _ => none
+  | ["set", s, k, v] => match parseNat? s, parseVal? k v with
+    | some s, some v => some (.set s v) | _, _ => none
+  | ["hostile", s, k] => match parseNat? s, parseNat? k with
+    | some s, some k => some (.hostile s k) | _, _ => none
+  | ["ser", s, sp, dp, tag] => match parseNat? s, parseNat? sp, parseNat? dp, parseNat? tag with
+    | some s, some sp, some dp, some tag => some (.ser s sp dp tag) | _, _, _, _ => none
+  | ["bytes", s] => (parseNat? s).map .bytes
+  | ["parse", d, b] => match parseHex? d, parseNat? b with
+    | some d, some b => some (.parse d b) | _, _ => none
+  | ["decparams", d, s] => match parseHex? d, parseNat? s with
+    | some d, some s => some (.decparams d s) | _, _ => none
+  | ["rcparse", t, d, s] => match parseNat? t, parseHex? d, parseNat? s with
+    | some t, some d, some s => some (.rcparse t d s) | _, _, _ => none
+  | _ => none
+
+def showObs : Obs → String
+  | .done => "done"
+  | .skip => "skip"
+  | .bytes o => o.tag toHex
+  | .parsed o => o.tag showParsed
+  | .params o => o.tag showParams
+  | .rc none => "none"
+  | .rc (some o) => o.tag showRc
+
+def runOps (toks : List String) : String :=
+  match toks.mapM parseOp? with
+  | some ops => " ; ".intercalate ((run Pool.empty ops).map showObs)
+  | none => "bad-op"
+
 def handleTop : List String → String
+  | "ops" :: toks => runOps toks
   | ["crc", d] => match parseHex? d with
     | some d => toString (Crc32c.crc32c d) | none => "bad-op"
   | ["padl", n] => match parseNat? n with
